@@ -841,3 +841,13 @@ Proof.
     + eapply raire_model_optimal; eauto.
 Qed.
 Print Assumptions raire_total_correct.
+
+(* ---- on an explicit fuel bound (NOT proved).  The measure above bounds the number of expanding iterations by the
+   initial value of Phi, at most n(n-1)(n+3)^(n-2), which already exceeds RaireAlgo.default_fuel = 200 n! + 200 for
+   n >= 6 (196830 > 144200), and the replacing / leaf-making iterations are only bounded through Psi, which grows
+   with the heap; so no bound below default_fuel follows from this measure.  A sharper potential (weight of an
+   unfrozen entry = 1 + (number of its unexplored children) * T(depth+1), with T(L) = 1 + (n-L) T(L+1) the size of a
+   subtree) would bound the expanding iterations by about e n!, but bounding the other iterations by a constant
+   multiple of n! needs "each node object is replaced / made a leaf at most once", i.e. a ghost record of expanded
+   objects over the identity heap — not attempted.  That default_fuel suffices is therefore still only checked on
+   every run (fuel exhaustion is reported as a disagreement by Run_Raire.agree_algo). *)
